@@ -1,5 +1,5 @@
 CONSTANT N = 12
-CONSTANT NI = 10
+CONSTANT NI = 12
 CONSTANT B = 10
 CONSTANT NP = 6
 CONSTANT BP = 40
